@@ -630,7 +630,18 @@ class Executor:
             elif op == 'sext': env[dest] = simp(z3.SignExt(w1 - w0, v))
             else: env[dest] = simp(z3.Extract(w1 - 1, 0, v))
             return
-        if op in ('ptrtoint', 'inttoptr', 'bitcast', 'addrspacecast'):
+        if op == 'ptrtoint':
+            ty, r2 = parse_type_prefix(rest)
+            vtok, toty = r2.split(' to ')
+            p = self.val(st, ty, vtok)
+            if isinstance(p.obj, tuple): raise Outcome('unsupported', 'ptrtoint of global')
+            w1 = type_bits(toty)
+            # every object gets an unconstrained symbolic base address; only differences / comparisons of
+            # addresses inside one object are meaningful, and those do not depend on the base
+            base = bv(0, 64) if p.obj == 0 else (bv(0x10000 * p.obj, 64) if self.concrete else z3.BitVec('base!%d' % p.obj, 64))
+            v = full_simp(base + p.off)
+            env[dest] = v if w1 == 64 else simp(z3.Extract(w1 - 1, 0, v)); return
+        if op in ('inttoptr', 'bitcast', 'addrspacecast'):
             raise Outcome('unsupported', op)
         if op == 'select':
             parts = split_top(rest)
